@@ -1,4 +1,4 @@
-import NomtModel.Store.GenFnCheck
+import NomtModel.Store.GenFnCheck4
 import NomtModel.Store.OvfArith
 /-!
 # C19 (topic: translated functions — how many pages an overflow value owns)
@@ -17,5 +17,20 @@ theorem T19_fn_total_needed_pages (v : Nat) (h : v < 2 ^ 48) :
    GenFnCheck.needed_pages_eq v (Nat.lt_trans h (by decide))⟩
 
 example : GenFn.total_needed_pages 1 = some 1 ∧ GenFn.total_needed_pages (15 * 4092) = some 15 ∧ GenFn.total_needed_pages (15 * 4092 + 1) = some 16 := by decide
+
+/-- T19.fn-2 `CleanFreeList::get_nth_pop` of the CURRENT source (checked indexing into `portions`, `none` = out of bounds / underflow):
+whenever it returns, it returns the value of the mirror `getNthPop` of `Store/FreeListNthPop.lean` (cap `1022 = MAX_PNS_PER_PAGE`), which
+`getNthPop_spec` shows to be the `n`-th element of the pop sequence on well-shaped lists (partial: that the translated function does not
+panic on well-shaped lists is not proved here; the examples below run it) -/
+theorem T19_fn_get_nth_pop_partial (rp : List Store.FreeList.Portion) (frag : Bool) (n v : Nat) (hn : n < 2 ^ 63)
+    (h : GenFn.get_nth_pop rp frag n = some v) : v = Store.FreeList.getNthPop 1022 rp frag n :=
+  GenFnCheck.get_nth_pop_eq rp frag n v hn h
+
+/-- T19.fn-3 `PageNumber::is_nil`: page number `0` is the nil page -/
+theorem T19_fn_page_number_is_nil (pn : Nat) : GenFn.page_number_is_nil pn = some (decide (pn = 0)) := rfl
+
+example : GenFn.get_nth_pop [(9, [20, 21]), (5, [10, 11, 12])] false 0 = some 12 ∧
+    GenFn.get_nth_pop [(9, [20, 21]), (5, [10, 11, 12])] false 2 = some 10 ∧
+    GenFn.get_nth_pop [(5, [10, 11, 12])] false 3 = none ∧ GenFn.get_nth_pop [(5, [10]), (6, [7])] true 0 = some 7 := by decide
 
 end Nomt.C19
